@@ -53,6 +53,8 @@ type G struct {
 
 	stalledUntil time.Duration // fault: not runnable before this fake time
 
+	selCases, selStart int // pending select: number of cases / chosen first case
+
 	wait     int
 	waitDesc string
 	probe    func() bool
@@ -192,6 +194,7 @@ func New(t *Tapes) *Sim {
 		start:    time.Now(),
 	}
 	s.Strat = pickStrategy(t)
+	ResetStable()
 	return s
 }
 
@@ -225,7 +228,7 @@ func (s *Sim) self() *G {
 		// A goroutine born in un-instrumented code: register on first contact.
 		s.nextX++
 		g = &G{ID: "x" + strconv.Itoa(s.nextX), goid: id, park: make(chan struct{}), extern: true}
-		g.prio = s.Strat.newPrio(s)
+		g.prio = s.Strat.newPrio(s, g.ID)
 		s.byGoid[id] = g
 		s.all = append(s.all, g)
 		s.hbFork(nil, g)
@@ -321,7 +324,7 @@ func (s *Sim) spawn(parent *G, site string, bg bool, f func()) *G {
 	if parent != nil {
 		g.proc = parent.proc
 	}
-	g.prio = s.Strat.newPrio(s)
+	g.prio = s.Strat.newPrio(s, g.ID)
 	s.all = append(s.all, g)
 	s.hbFork(parent, g)
 	s.mu.Unlock()
@@ -519,6 +522,16 @@ func (s *Sim) Run() *Verdict {
 		}
 		s.last = g
 		g.last = s.Step
+		if g.selCases > 1 {
+			// g is entering a select: decide the order of its cases
+			t := s.Tapes.Sched
+			if t.Replaying() {
+				g.selStart = t.Draw(g.selCases)
+			} else {
+				g.selStart = s.Tapes.srng.IntN(g.selCases)
+				t.Put(g.selStart)
+			}
+		}
 		s.mu.Lock()
 		g.state = stRunning
 		g.wait = waitNone
